@@ -4,6 +4,7 @@ import Exetera.Gen.KernelShape
 import Exetera.Props.C10.Basic
 import Exetera.Props.C10.MapValid
 import Exetera.Props.C10.Spans
+import Exetera.Props.C10.FilterIndex
 /-!
 # C10 — compiled kernels never touch memory outside their arrays (join kernels part)
 
